@@ -359,7 +359,7 @@ func Window(total, skip, limit int) (int, int) {
 		lo = total
 	}
 	hi := total
-	if limit >= 0 && lo+limit < hi {
+	if limit >= 0 && limit < hi-lo { // (written so that a limit near MaxInt cannot overflow)
 		hi = lo + limit
 	}
 	return lo, hi
